@@ -905,6 +905,30 @@ def r_write_fifo(ctx):
                     ctx.violation('%s:write-buffer-prefix' % m.qualname, m.loc(st), 'the removed prefix `%s` is not the byte count returned by socket.send(write buffer)' % rv, instance=inst)
             else:
                 ctx.violation('%s:write-buffer-rewritten' % m.qualname, m.loc(st), 'unexpected rewrite of the write buffer: `%s`' % unparse(st), instance=inst)
+    # socket errors: EAGAIN / EWOULDBLOCK keep the connection, anything else disconnects
+    for m in P.methods_of(C):
+        for n in ast.walk(m.node):
+            if not isinstance(n, ast.Try):
+                continue
+            io = [c for c in ast.walk(ast.Module(body=n.body, type_ignores=[])) if isinstance(c, ast.Call) and isinstance(c.func, ast.Attribute) and c.func.attr in ('send', 'recv')
+                  and 'socket' in unparse(c.func.value)]
+            if not io:
+                continue
+            for hd in n.handlers:
+                inst = '%s: socket error handling around %s()' % (m.qualname, io[0].func.attr)
+                ctx.tick()
+                tests = [x for x in ast.walk(hd) if isinstance(x, ast.If) and isinstance(x.test, ast.Compare) and 'errno' in unparse(x.test.left)]
+                okh = False
+                if tests:
+                    t = tests[0]
+                    names = set(x.attr for x in ast.walk(t.test.comparators[0]) if isinstance(x, ast.Attribute))
+                    disc = any(isinstance(c, ast.Call) and isinstance(c.func, ast.Attribute) and c.func.attr == 'disconnect' for s_ in t.body for c in ast.walk(s_))
+                    okh = isinstance(t.test.ops[0], ast.NotIn) and {'EAGAIN', 'EWOULDBLOCK'} <= names and disc
+                if okh:
+                    ctx.ok(inst, m.loc(hd), 'disconnect only when errno not in (EAGAIN, EWOULDBLOCK)')
+                else:
+                    ctx.violation('%s:socket-error-handling' % m.qualname, m.loc(hd),
+                                  'a socket error is not handled as "EAGAIN/EWOULDBLOCK: keep the buffer and retry; anything else: disconnect"', instance=inst)
     # EAGAIN keeps the buffer: in the handler of socket.error the buffer is not written unless disconnecting
     ctx.require(n_w >= 3, 'write buffer writers not found')
     ctx.expect_min(3)
